@@ -424,12 +424,21 @@ def run_jobs(ctx: Any, jobs: list[tuple[dict[str, Any], str]], deadline: float =
             results = list(ex.map(run_impl, [(c, t, deadline) for c, t in jobs], chunksize=8))
     except Exception:  # noqa: BLE001   (no fork / no semaphores in the sandbox: run inline)
         results = [run_impl((c, t, deadline)) for c, t in jobs]
+    confirmed: dict[str, int] = {}      # fault family -> confirmed hangs so far
     for (c, t), r in zip(jobs, results):
         if r["hung"]:
-            # a miss of the deadline may be CPU starvation of the worker: confirm alone, with a long deadline
-            ctx.tag("rerun-after-deadline")
-            r = run_impl((c, t, 30.0))
-            judge(ctx, c, t, r, 30.0)
+            # a miss of the deadline may be CPU starvation of the worker: confirm alone, with a long deadline — but once a
+            # family has hung twice under confirmation, further members are taken at their word (a real hang costs the
+            # whole deadline each time)
+            fam = fault_key(c)
+            if confirmed.get(fam, 0) < 2:
+                ctx.tag("rerun-after-deadline")
+                r = run_impl((c, t, 30.0))
+                if r["hung"]:
+                    confirmed[fam] = confirmed.get(fam, 0) + 1
+                judge(ctx, c, t, r, 30.0)
+            else:
+                judge(ctx, c, t, r, deadline)
         else:
             judge(ctx, c, t, r, deadline)
 
